@@ -31,8 +31,11 @@ TRUSTED = [
     "soundness 'accepts only if the defining equation holds' is by construction of the specification verifier plus this comparison, it is "
     "not a theorem about the C code; no model of the C verifiers' control flow is proved",
     "NOT COVERED (PARTIAL): cp_mpss_* / cp_mpsb_* (two-party Pointcheval-Sanders), cp_cmlhs_*, cp_mklhs_* (homomorphic signatures); the OR "
-    "proofs' / ring signatures' completeness is compared, not proved; the ETRS specification is this check's reading of the scheme "
-    "(finding C05-8); SHA-256 / MGF1 are the specifications of C14, curve arithmetic that of C03, parameters those of C18",
+    "proofs' / ring signatures' completeness is compared, not proved; the ETRS specification is this check's reading of the scheme (all "
+    "points and (0, pp) on one polynomial of degree N - thres, exact threshold, proofs of knowledge) — the repaired cp_etrs_ver agrees with "
+    "it on every line; SHA-256 / MGF1 are the specifications of C14, curve arithmetic that of C03, parameters those of C18",
+    "the thirteen defects found by this check (C05-1 ... C05-13, findings/C05-*.md) are repaired in /repo (fixed: lines of "
+    "known_findings.json); their trigger lines stay in the generators, so a regression shows up as a spec failure",
 ]
 ASSUMPTIONS = [
     "the group order n of every selectable curve is prime and the cofactor of G1 is 1 (checked by C18); pairing curves: BN_P256 (what "
@@ -40,7 +43,7 @@ ASSUMPTIONS = [
     "CP_RSAPD = PKCS2 (PSS, empty salt), CP_CRT on in the pinned configuration; PKCS1 and BASIC (+ CP_CRT off) are exercised in two extra "
     "configurations; BN_PRECI = 1024 limits RSA moduli to 1024 bits and integer-valued messages (CL schemes) to 272 bytes",
     "public keys must be valid group elements other than the identity (key generation never outputs the identity): a verifier that accepts a "
-    "triple under an identity / off-curve key is reported (findings C05-1, C05-2, C05-12)",
+    "triple under an identity / off-curve key violates the property (C05-1, C05-2, C05-12, repaired)",
 ]
 RULE = ("per curve / key: keys from key generation (several seeds) plus boundary keys 1, n-1; message lengths 0, 1, 31..33, 55, 56, 63..65, "
         "119..129, ~300; hash-then-sign and pre-hashed (digest lengths 0..64); honest triple, (r, n-s), listed single-bit flips of every scalar "
